@@ -327,6 +327,114 @@ def _random_chunk(arg) -> dict:
             "samples": [sample] if sample else []}
 
 
+# ---------------------------------------------------------------------------------------------------
+# E2: operation sequences on live circuits (evaluate / modify in place / evaluate again ...)
+
+from vf import circuit_history as H
+
+DEFAULT_TLM_SUB = {"X_1": (("L",), [G.entry("R", {"R": 1.0})]), "X_2": "short", "Z_A": None, "Z_B": None,
+                   "Zeta": (("L",), [G.entry("Q", {"Y": 5e-3, "n": 0.8})])}   # the documented defaults, spelled out
+
+HIST_SUBJECTS = {
+    "R(CR)TlmN": {
+        "tree": ("S", ("L",), ("P", ("L",), ("L",)), ("L",)),
+        "fills": [G.entry("R", {"R": 1500.0}), G.entry("C", {"C": 2e-6}), G.entry("R", {"R": 40.0}), G.entry("Tlm", {"L": 2.0}, sub=TLM_SUB)],
+        "muts": [{"leaf": 0, "kind": "values", "alt": {"R": 220.0}},
+                 {"leaf": 3, "kind": "nested", "key": "X_1", "idx": 0, "alt": {"R": 9.0}},
+                 {"leaf": 3, "kind": "sub", "key": "X_2", "alt": (("L",), [G.entry("R", {"R": 3.0})])},
+                 {"leaf": 3, "kind": "values", "alt": {"L": 0.7}}],
+    },
+    "(TlmC,Q)": {
+        "tree": ("P", ("L",), ("L",)),
+        "fills": [G.entry("Tlm", {"L": 0.5}, sub=TLM_SUB_CONN), G.entry("Q", {"Y": 5e-5, "n": 0.75})],
+        "muts": [{"leaf": 0, "kind": "nested", "key": "Z_B", "idx": 2, "alt": {"R": 45.0}},
+                 {"leaf": 0, "kind": "nested", "key": "X_1", "idx": 3, "alt": {"n": 0.7}},
+                 {"leaf": 1, "kind": "values", "alt": {"n": 0.6}},
+                 {"leaf": 0, "kind": "sub", "key": "Z_A", "alt": (("L",), [G.entry("C", {"C": 1e-3})])}],
+    },
+    "TlmTlm(defaults)": {
+        "tree": ("S", ("L",), ("L",)),
+        "fills": [G.entry("Tlm", {}), G.entry("Tlm", {})],
+        "explicit": [G.entry("Tlm", {"L": 1.0}, sub=DEFAULT_TLM_SUB), G.entry("Tlm", {"L": 1.0}, sub=DEFAULT_TLM_SUB)],
+        "muts": [{"leaf": 0, "kind": "nested", "key": "X_1", "idx": 0, "alt": {"R": 4.0}},
+                 {"leaf": 1, "kind": "nested", "key": "Zeta", "idx": 0, "alt": {"n": 0.6}},
+                 {"leaf": 0, "kind": "values", "alt": {"L": 2.0}},
+                 {"leaf": 1, "kind": "sub", "key": "X_2", "alt": (("L",), [G.entry("R", {"R": 0.5})])}],
+    },
+}
+HIST_OBS = ["len7desc", "len7perm", "len1"]
+
+
+def _hist_observations(st):
+    def mk(vname):
+        def f(c):
+            s, Z = evaluate(c, FREQ_VECTORS[vname], st)
+            if s == "ok":
+                return ("ok", tuple(complex(z) for z in Z))
+            if s == "open":
+                return ("open",)
+            return ("error", type(Z).__name__)
+        return f
+    return {v: mk(v) for v in HIST_OBS}
+
+
+def _hist_alphabet(subj) -> List[list]:
+    return [["obs", v] for v in HIST_OBS] + [["tog", k] for k in range(len(subj["muts"]))]
+
+
+def _hist_run(name: str, route: str, ops, st, cache={}):
+    subj = HIST_SUBJECTS[name]
+    obs = _hist_observations(st)
+    explicit = subj.get("explicit", subj["fills"])
+    if name not in cache:
+        cache[name] = H.reference_table(subj["tree"], explicit, subj["muts"], obs)
+    return H.run_history(lambda: H.ROUTES[route](subj["tree"], subj["fills"]), subj["fills"], explicit, subj["muts"], obs, cache[name], ops)
+
+
+def _hist_violation(name: str, route: str, ops, st) -> Optional[dict]:
+    bad, _ = _hist_run(name, route, ops, st)
+    if bad is None:
+        return None
+    ops = H.shrink(list(ops)[: bad["step"] + 1], lambda o: _hist_run(name, route, o, st)[0] is not None)
+    bad, _ = _hist_run(name, route, ops, st)
+    subj = HIST_SUBJECTS[name]
+    sig = ">".join(("eval" if o[0] == "obs" else subj["muts"][o[1]]["kind"] if o[0] == "tog" else o[0]) for o in ops)
+    return {"key": f"history|{sig}", "what": f"after the operation sequence {ops} the live circuit {name} ({route} route) evaluates differently from a "
+            f"circuit built directly with the same current parameters: got {bad['got']}, expected {bad['expected']}",
+            "case": {"history": name, "route": route, "ops": [list(o) for o in ops]}, "detail": ""}
+
+
+def _hist_chunk(arg) -> dict:
+    name, route, prefix, depth = arg
+    st = setup()
+    subj = HIST_SUBJECTS[name]
+    alpha = _hist_alphabet(subj)
+    n = nobs = 0
+    viols: Dict[str, dict] = {}
+    outcomes: Dict[str, int] = {}
+    nontrivial = []
+    for rest in H.all_sequences(alpha, depth - len(prefix)):
+        ops = list(prefix) + list(rest)
+        n += 1
+        bad, k = _hist_run(name, route, ops, st)
+        nobs += k
+        togs = sum(1 for o in ops if o[0] == "tog")
+        o = f"history:{'agree' if bad is None else 'DIFFER'}/{togs} modifications"
+        outcomes[o] = outcomes.get(o, 0) + 1
+        if togs and ops[-1][0] == "obs":
+            nontrivial.append(hash((name, route, repr(ops))))
+        if bad is not None:
+            v = _hist_violation(name, route, ops, st)
+            if v is not None:
+                if v["key"] not in viols:
+                    v["count"] = 0
+                    viols[v["key"]] = v
+                viols[v["key"]]["count"] += 1
+    return {"n": n, "nontrivial": nontrivial, "outcomes": outcomes, "violations": list(viols.values()), "traces": n, "transitions": n * depth,
+            "samples": [{"history_subject": name, "route": route, "operations": ops}] if prefix == [["tog", 0]] else [],
+            "stats": {"history_observations": nobs}}
+
+
 def run(ctx) -> None:
     thorough = ctx.tier == "thorough"
     setup()
@@ -364,10 +472,30 @@ def run(ctx) -> None:
         ctx.pmap(_chunk, _jobs("small4", G.canonical_trees(4) + G.object_only_trees(4)[len(objonly):], PALETTE_SMALL), label="5-entry palette, 4 leaves")
     nrand = 3200 if thorough else 320
     ctx.pmap(_random_chunk, [(ctx.seed * 1000 + i, nrand // 16, 6, 10) for i in range(16)], label="random 6..10 leaves (seeded extras)")
+    depth = 6 if thorough else 5
+    jobs = []
+    for name, subj in HIST_SUBJECTS.items():
+        alpha = _hist_alphabet(subj)
+        for route in ("objects", "cdc", "builder"):
+            for a in alpha:
+                jobs.append((name, route, [a], depth))
+    ctx.pmap(_hist_chunk, jobs, label=f"operation sequences of length {depth} on live circuits (evaluate / modify in place), 3 subjects x 3 routes")
+    ctx.extra["history_alphabet"] = {k: [H_describe(o, v) for o in _hist_alphabet(v)] for k, v in HIST_SUBJECTS.items()}
     ctx.extra["frequency_vectors"] = {k: len(v) for k, v in FREQ_VECTORS.items()}
 
 
+def H_describe(o, subj) -> str:
+    if o[0] == "obs":
+        return f"evaluate {o[1]}"
+    m = subj["muts"][o[1]]
+    return f"toggle leaf {m['leaf']} {m['kind']} {m.get('key', '')} {m['alt'] if m['kind'] != 'sub' else '<replacement sub-circuit>'}"
+
+
 def replay(case: dict) -> list:
+    if "history" in case:
+        v = _hist_violation(case["history"], case["route"], [list(o) for o in case["ops"]], setup())
+        return [v] if v else []
+
     def tup(t):
         return tuple(tup(x) if isinstance(x, list) else x for x in t)
 
